@@ -170,6 +170,65 @@ def canon(fn_node: ast.AST) -> ast.AST:
     return t
 
 
+def _stop_flag_linear(loop: ast.While, flag_assign: ast.Assign, cnt: str) -> Optional[bool]:
+    """True / False: the flag assigned by `flag_assign` (a top-level statement of the loop body) is / is not equivalent to
+    'position at the start of the iteration + length asked for == count'; None when the body is outside the linear fragment."""
+    env: Dict[str, Dict[str, int]] = {}
+    req: Dict[str, bool] = {}
+
+    class _NL(Exception):
+        pass
+
+    def add(a, b, k=1):
+        r = dict(a)
+        for x, v in b.items():
+            r[x] = r.get(x, 0) + k * v
+        return {x: v for x, v in r.items() if v}
+
+    def lin(e: ast.expr) -> Dict[str, int]:
+        if isinstance(e, ast.Await):
+            return lin(e.value)
+        if isinstance(e, ast.Constant) and isinstance(e.value, int) and not isinstance(e.value, bool):
+            return {"1": e.value} if e.value else {}
+        if isinstance(e, ast.Name):
+            return dict(env.get(e.id, {e.id: 1}))
+        if isinstance(e, ast.BinOp) and isinstance(e.op, (ast.Add, ast.Sub)):
+            return add(lin(e.left), lin(e.right), 1 if isinstance(e.op, ast.Add) else -1)
+        if isinstance(e, ast.Call) and isinstance(e.func, ast.Name) and e.func.id == "min" and len(e.args) == 2:
+            return {"L": 1}
+        if isinstance(e, ast.Call) and isinstance(e.func, ast.Name) and e.func.id == "len" and len(e.args) == 1 and isinstance(e.args[0], ast.Name) and req.get(e.args[0].id):
+            return {"L": 1}
+        raise _NL()
+    try:
+        for st in loop.body:
+            if st is flag_assign:
+                cmp_ = st.value
+                d = add(lin(cmp_.left), lin(cmp_.comparators[0]), -1)
+                pos = [k for k in d if k not in ("L", cnt, "1")]
+                if len(pos) != 1 or "1" in d:
+                    return None
+                want = {pos[0]: 1, "L": 1, cnt: -1}
+                neg = {k: -v for k, v in want.items()}
+                return d == want or d == neg
+            if isinstance(st, ast.Assign) and len(st.targets) == 1 and isinstance(st.targets[0], ast.Name):
+                nm = st.targets[0].id
+                if any(isinstance(x, ast.Attribute) and ast.unparse(x) == "os.read" for x in ast.walk(st.value)):
+                    req[nm] = True  # the bytes read: as many as were asked for (full read)
+                    continue
+                try:
+                    env[nm] = lin(st.value)
+                except _NL:
+                    env[nm] = {f"?{nm}": 1}
+            elif isinstance(st, ast.AugAssign) and isinstance(st.target, ast.Name) and isinstance(st.op, (ast.Add, ast.Sub)):
+                env[st.target.id] = add(lin(st.target), lin(st.value), 1 if isinstance(st.op, ast.Add) else -1)
+            elif isinstance(st, (ast.If, ast.While, ast.For, ast.Try, ast.With, ast.AsyncWith, ast.AsyncFor)):
+                if any(isinstance(x, (ast.Assign, ast.AugAssign)) for x in ast.walk(st)):
+                    return None
+    except _NL:
+        return None
+    return None
+
+
 def wsgi_range_reader(hn: ast.AST, scope: Optional[ast.AST] = None) -> Optional[str]:
     """The WSGI way of sending the bytes [start, end) of the open file: seek(start), then a loop that reads
     min(chunk, <what is left>) per step over exactly end - start bytes. Decided structurally on the role-named copy of the
@@ -615,7 +674,45 @@ def run(p: Program, rep: Report, tier: str) -> None:
                 rep.violation("R2.2", construct(fr_init, text=f"{r[1]}({ast.unparse(c.args[0]) if c.args else ''})"), where(fr_init, c),
                               f"{side}: FileResponse takes size and validators from {r[1]}(...) although the body is read through open(): for a path whose last component is a symbolic link the "
                               "Content-Length / ranges / ETag describe the link, not the bytes that are sent")
-    rep.require_instances("R2.2", 12)
+    # ... and conversely every os.open() of the response modules opens what os.stat() described: read-only, links followed. A flag
+    # that makes the open fail (O_NOFOLLOW on a link, O_DIRECTORY, O_EXCL ...) fails AFTER the response start announced the length.
+    OPEN_OK = {"O_RDONLY", "O_CLOEXEC", "O_BINARY", "O_NOCTTY", "O_NOINHERIT", "O_SEQUENTIAL"}
+    n_open = 0
+    for mname in ("baize.asgi.responses", "baize.wsgi.responses"):
+        for f_ in p.module(mname).all_funcs:
+            for c in calls_in(f_, deep=False):
+                try:
+                    r_ = p.resolve_call(f_, c)
+                except Exception:
+                    r_ = None
+                flags_e = None
+                if r_ == ("ext", "os.open") and len(c.args) >= 2:
+                    flags_e = c.args[1]
+                elif isinstance(c.func, ast.Name) and c.func.id == "run_in_threadpool" and c.args and ast.unparse(c.args[0]) == "os.open" and len(c.args) >= 3:
+                    flags_e = c.args[2]
+                if flags_e is None:
+                    continue
+                n_open += 1
+                if isinstance(flags_e, ast.Name):
+                    # a module-level constant (possibly defined under `if os.name ...`) is its expression
+                    defs_ = [st.value for st in ast.walk(f_.module.tree) if isinstance(st, ast.Assign) and len(st.targets) == 1 and isinstance(st.targets[0], ast.Name) and st.targets[0].id == flags_e.id]
+                    if len(defs_) == 1:
+                        flags_e = defs_[0]
+                names = {n.attr for n in ast.walk(flags_e) if isinstance(n, ast.Attribute)} | {n.value for n in ast.walk(flags_e) if isinstance(n, ast.Constant) and isinstance(n.value, str)}
+                bad = sorted(x for x in names if x.startswith("O_") and x not in OPEN_OK)
+                other = [n for n in ast.walk(flags_e) if isinstance(n, (ast.Name, ast.Call)) and not (isinstance(n, ast.Name) and n.id in ("os", "getattr"))
+                         and not (isinstance(n, ast.Call) and isinstance(n.func, ast.Name) and n.func.id == "getattr")]
+                if bad:
+                    rep.violation("R2.2", construct(f_, text=f"os.open flags {' | '.join(bad)}"), where(f_, c),
+                                  f"the file is opened with {' | '.join(bad)}: the size and validators were taken with os.stat() (links followed, any file type), so for a path this flag refuses "
+                                  "(a symbolic link as last component, ...) the open fails after status and Content-Length were sent - the declared bytes never follow")
+                elif other or "O_RDONLY" not in names:
+                    rep.undecide("R2.2", f"{f_.fq}: flags of os.open not recognised: {ast.unparse(flags_e)[:60]}")
+                else:
+                    rep.ok("R2.2", f"{f_.fq}: os.open(path, {ast.unparse(flags_e)[:40]}) - read-only, follows links like os.stat")
+    if n_open == 0:
+        rep.undecide("R2.2", "no os.open call found in the response modules (the ASGI sender's descriptor is opened in an idiom outside the table)")
+    rep.require_instances("R2.2", 13)
 
     # ---------------------------------------------------------------- R2.3 / R2.4 __call__
     jr = mixin.methods.get("judge_if_range")
@@ -964,6 +1061,22 @@ def run(p: Program, rep: Report, tier: str) -> None:
                         else:
                             stops.append((b_, gs[-1][0]))
                 bad_stops = [(n_, e_) for n_, e_ in stops if not mentions_derived(e_)]
+                # the stop flag must say "this piece reaches the end of the count": with L = the length asked for in this iteration and
+                # pos = the position at its start, `flag = <a> == <b>` has to be equivalent to pos + L == count WHEREVER it stands relative
+                # to the update of pos (length == count - pos before `pos += length`; pos == count after it). Decided by linear arithmetic
+                # over the straight-line statements of the loop body (a full read assumed: len(data) = L).
+                flag_sets = [(n, n.value) for n in loop.body if isinstance(n, ast.Assign) and any(isinstance(t, ast.Name) and t.id in flags for t in n.targets)]
+                for n_, e_ in flag_sets:
+                    if isinstance(e_, ast.Compare) and len(e_.ops) == 1 and isinstance(e_.ops[0], (ast.Eq, ast.GtE, ast.LtE)):
+                        verdict = _stop_flag_linear(loop, n_, cnt)
+                        if verdict is False:
+                            bad_stops.append((n_, e_))
+                            rep.violation("R2.6", construct(fs, text=f"stop flag {ast.unparse(n_)[:60]}"), where(fs, n_),
+                                          f"asgi: the bounded copy loop sets its stop flag with `{ast.unparse(e_)[:50]}` at a point where the position was already advanced (or not yet): that is not "
+                                          "'this piece reaches the end of the count' - for a count that is an exact multiple of the chunk size the loop stops one chunk early (Content-Length bytes "
+                                          "never sent) or late")
+                            stops = [x for x in stops if x[0] is not n_]
+                bad_stops = [x for x in bad_stops if not (isinstance(x[0], ast.Assign) and x[0] not in [y[0] for y in stops] and mentions_derived(x[1]))]
                 if direct and not bad_stops:
                     rep.ok("R2.6", "asgi fallback sender: the bounded loop tests the count bookkeeping")
                 elif stops and not bad_stops:
